@@ -606,3 +606,19 @@ def trace(seen, key, g, maxlen=40):
     if len(comp) > maxlen:
         comp = comp[:maxlen // 2] + ['...'] + comp[-maxlen // 2:]
     return comp
+
+
+def resolve_expr(expr, subst, depth=6):
+    """copy of `expr` with once-assigned local names replaced by their defining expressions (recursively)"""
+    import copy as _copy
+
+    class R(ast.NodeTransformer):
+        def __init__(self, d):
+            self.d = d
+
+        def visit_Name(self, node):
+            if isinstance(node.ctx, ast.Load) and node.id in subst and self.d > 0:
+                new = _copy.deepcopy(subst[node.id])
+                return R(self.d - 1).visit(new)
+            return node
+    return R(depth).visit(_copy.deepcopy(expr))
